@@ -333,147 +333,3 @@ def param_kind(prog, fi, pname, res):
 
 
 # ---------------------------------------------------------------------------------------------- index / endpoint kinds of one function
-class K:
-    """kind of an integer-like index value: family LABEL | POS, endpoint FIRST | LAST | ONE_PAST | ANY; 'ARITH' = arithmetic on a label"""
-
-    def __init__(self, fam, end, note=""):
-        self.fam, self.end, self.note = fam, end, note
-
-    def key(self):
-        return (self.fam, self.end)
-
-    def __repr__(self):
-        return f"{self.fam}:{self.end}"
-
-
-def gene_map_kind(prog):
-    """what GenomicArray._get_gene_map stores per gene: index LABELs or row POSitions -- found by interpreting it on a literal table whose
-    index labels (7, 3, 9) are not the row positions (0, 1, 2)"""
-    from .abstools import make_ga, Interp, Undecided, Raised, W
-    W.reset()
-    labels = [7, 3, 9]
-    g = make_ga("CopyNumArray", [dict(chromosome="chr1", start=10 * i, end=10 * i + 5, gene=nm, log2=0) for i, nm in enumerate(["A", "B,A", "C"])], {}, exact=True, labels=labels)
-    try:
-        out = Interp(prog).run_method(g, "_get_gene_map", [])
-        got = {k: list(v) for k, v in dict(out).items()}
-    except (Undecided, Raised, TypeError, ValueError) as e:
-        raise AnalysisError(f"cannot tell whether _get_gene_map stores index labels or positions: {e}")
-    if got == {"A": [7, 3], "B": [3], "C": [9]}:
-        return "LABEL"
-    if got == {"A": [0, 1], "B": [1], "C": [2]}:
-        return "POS"
-    raise AnalysisError(f"cannot tell whether _get_gene_map stores index labels or positions: it maps A / B,A / C on rows labelled 7, 3, 9 to {got}")
-
-
-def index_kind_problems(prog, fi):
-    """Flow-insensitive kind inference for the index arithmetic of one function (written for CopyNumArray.by_gene).
-    Returns (problems, nchecked): problems = [(node, text)]"""
-    par = parents(fi.node)
-    gm = gene_map_kind(prog)
-    label_lists, pos_lookup = set(), set()
-    for n in own_nodes(fi.node):
-        # for gene, gene_idx in X._get_gene_map().items()
-        if isinstance(n, ast.For) and isinstance(n.iter, ast.Call) and isinstance(n.iter.func, ast.Attribute) and n.iter.func.attr == "items" \
-                and isinstance(n.iter.func.value, ast.Call) and norm(n.iter.func.value.func).endswith("_get_gene_map") \
-                and isinstance(n.target, ast.Tuple) and len(n.target.elts) == 2 and isinstance(n.target.elts[1], ast.Name):
-            label_lists.add(n.target.elts[1].id)
-        # positions = pd.Series(np.arange(len(x)), index=<...>.index)
-        if isinstance(n, ast.Assign) and len(n.targets) == 1 and isinstance(n.targets[0], ast.Name) and isinstance(n.value, ast.Call) and norm(n.value.func) == "pd.Series" \
-                and n.value.args and isinstance(n.value.args[0], ast.Call) and norm(n.value.args[0].func) in ("np.arange", "range") \
-                and any(k.arg == "index" and isinstance(k.value, ast.Attribute) and k.value.attr == "index" for k in n.value.keywords):
-            pos_lookup.add(n.targets[0].id)
-
-    memo = {}
-
-    def kinds(e, depth=0):
-        """set of K for expression e"""
-        if depth > 8:
-            return set()
-        if isinstance(e, ast.Constant) and isinstance(e.value, int) and not isinstance(e.value, bool):
-            return {K("POS", "FIRST" if e.value == 0 else "ANY")}
-        if isinstance(e, ast.Subscript) and isinstance(e.value, ast.Name):
-            if e.value.id in label_lists:
-                fam = "LABEL" if gm == "LABEL" else "POS"
-                s = norm(e.slice)
-                return {K(fam, "FIRST" if s == "0" else "LAST" if s == "-1" else "ANY")}
-            if e.value.id in pos_lookup:
-                inner = kinds(e.slice, depth + 1)
-                return {K("POS", k.end) if k.fam == "LABEL" else K("BAD", k.end, "a position used as a label in the label->position lookup") for k in inner}
-        if isinstance(e, ast.Subscript) and isinstance(e.value, ast.Attribute) and e.value.attr == "index" and norm(e.slice) in ("0", "-1"):
-            return {K("LABEL", "FIRST" if norm(e.slice) == "0" else "LAST")}           # <table>.index[0]: the label of the first row
-        if isinstance(e, ast.BinOp) and isinstance(e.op, (ast.Add, ast.Sub)) and not (isinstance(e.right, ast.Constant) and e.right.value == 1):
-            lk, rk = kinds(e.left, depth + 1), kinds(e.right, depth + 1)
-            if any(k.fam == "LABEL" for k in lk | rk):
-                return {K("ARITH", "ANY", f"arithmetic on index labels (`{norm(e)}`): a label difference is a row position only while the labels are consecutive "
-                                            "integers, which no longer holds after any row filtering")}
-            if lk and rk and all(k.fam == "POS" for k in lk | rk):
-                return {K("POS", "ANY")}
-            return set()
-        if isinstance(e, ast.Call) and isinstance(e.func, ast.Name) and e.func.id == "len":
-            return {K("POS", "ONE_PAST")}
-        if isinstance(e, ast.Call) and isinstance(e.func, ast.Name) and e.func.id == "int" and e.args:
-            return kinds(e.args[0], depth + 1)
-        if isinstance(e, ast.BinOp) and isinstance(e.op, (ast.Add, ast.Sub)) and isinstance(e.right, ast.Constant) and e.right.value == 1:
-            out = set()
-            for k in kinds(e.left, depth + 1):
-                if k.fam == "LABEL":
-                    out.add(K("ARITH", k.end, f"arithmetic on an index label (`{norm(e)}`): labels of a subset are not consecutive integers"))
-                elif isinstance(e.op, ast.Add):
-                    out.add(K(k.fam, {"LAST": "ONE_PAST"}.get(k.end, "ANY")))
-                else:
-                    out.add(K(k.fam, {"ONE_PAST": "LAST"}.get(k.end, "ANY")))
-            return out
-        if isinstance(e, ast.Name):
-            if e.id in memo:
-                return memo[e.id]
-            memo[e.id] = set()
-            out = set()
-            for st, v in flow.assignments(fi.node, e.id):
-                if v is not None:
-                    out |= kinds(v, depth + 1)
-            memo[e.id] = out
-            return out
-        return set()
-
-    problems, nchecked = [], 0
-    for n in own_nodes(fi.node):
-        if isinstance(n, ast.Subscript) and isinstance(n.value, ast.Attribute) and n.value.attr in ("loc", "iloc") and isinstance(n.slice, ast.Slice):
-            which = n.value.attr
-            lo = kinds(n.slice.lower) if n.slice.lower is not None else set()
-            hi = kinds(n.slice.upper) if n.slice.upper is not None else set()
-            nchecked += 1
-            for k in lo | hi:
-                if k.fam in ("ARITH", "BAD"):
-                    problems.append((n, f"`{norm(n)}`: {k.note}"))
-            want_fam = "LABEL" if which == "loc" else "POS"
-            for side, ks in (("lower", lo), ("upper", hi)):
-                for k in ks:
-                    if k.fam in ("LABEL", "POS") and k.fam != want_fam:
-                        problems.append((n, f"`{norm(n)}`: {side} bound is a {k.fam.lower()} ({k!r}) but .{which} slices by {want_fam.lower()}"))
-            for k in hi:
-                if which == "loc" and k.fam in ("LABEL", "POS", "ARITH") and k.end != "LAST":
-                    problems.append((n, f"`{norm(n)}`: .loc slices are closed, so the upper bound must be the group's LAST label; got {k!r} "
-                                        "(the first row of the next group / one past the end is included as well)"))
-                if which == "iloc" and k.fam == "POS" and k.end == "LAST":
-                    problems.append((n, f"`{norm(n)}`: .iloc slices are half-open, the upper bound must be one past the last position; got {k!r} (the last row is dropped)"))
-        if isinstance(n, ast.Compare) and len(n.ops) == 1 and isinstance(n.ops[0], (ast.Lt, ast.LtE, ast.Gt, ast.GtE)):
-            a, b = kinds(n.left), kinds(n.comparators[0])
-            if not a or not b:
-                continue
-            nchecked += 1
-            for ka in a:
-                for kb in b:
-                    fams = {ka.fam, kb.fam}
-                    if "ARITH" in fams:
-                        problems.append((n, f"`{norm(n)}`: " + (ka.note or kb.note)))
-                    elif fams == {"LABEL", "POS"}:
-                        problems.append((n, f"`{norm(n)}`: compares an index label ({ka!r}) with a position ({kb!r})"))
-                    elif {ka.end, kb.end} == {"ONE_PAST", "LAST"} and isinstance(n.ops[0], (ast.Lt, ast.Gt)):
-                        problems.append((n, f"`{norm(n)}`: strict comparison of a one-past-the-end value with a last position ({ka!r} vs {kb!r}): "
-                                            "off by one -- a single trailing row is not seen"))
-    uniq, seen = [], set()
-    for n, t in problems:
-        if t not in seen:
-            seen.add(t)
-            uniq.append((n, t))
-    return uniq, nchecked
